@@ -106,3 +106,130 @@ End Polls.
 (* polls_cover_work as ONE inequality (p_count of a run >= number of executed statements + attributes +
    scan iterations + ...) is not stated: the number of executed units is not an observable of the run.
    The per-unit statements above are the proved form. *)
+
+(* ================================================================================================================
+   THE STANDARD LIBRARY.  `call_errors_ok` holds of the model of the standard function library (`stdlib_call rxo t` of
+   Model/Stdlib.v, every regex oracle rxo, on the tree the program runs on): its errors are the eight plain variants
+   of C13 error_classes, never Cancelled (Proofs/StdlibHyps.v).  The theorems of Section C11, instantiated: the same
+   statements with `call := stdlib_call rxo t`, no hypothesis on functions. *)
+From TSG Require Import Model.Stdlib Model.Regex Proofs.StdlibHyps.
+
+Theorem stdlib_errors_ok : forall rxo t, call_errors_ok (stdlib_call rxo t).
+Proof. exact stdlib_call_errors_ok. Qed.
+
+Theorem strict_cancel_at_k_stdlib : forall {rx : Type} rxo t fl cfg supplied (regexes : list rx) find fuel ms g0 s p k,
+  run_strict t fl cfg supplied None regexes find (stdlib_call rxo t) fuel ms g0 = Ok (s, p) -> (1 <= k <= p_count p)%N ->
+  exists l, run_strict t fl cfg supplied (Some k) regexes find (stdlib_call rxo t) fuel ms g0 = Err (ECancelled l).
+Proof. intros rx rxo t fl cfg supplied regexes find. exact (strict_cancel_at_k t fl cfg supplied regexes find (stdlib_call rxo t) (stdlib_call_errors_ok rxo t)). Qed.
+Theorem lazy_cancel_at_k_stdlib : forall {rx : Type} rxo t fl cfg supplied (regexes : list rx) find fuel ms g0 s p k,
+  run_lazy t fl cfg supplied None regexes find (stdlib_call rxo t) fuel ms g0 = Ok (s, p) -> (1 <= k <= p_count p)%N ->
+  exists l, run_lazy t fl cfg supplied (Some k) regexes find (stdlib_call rxo t) fuel ms g0 = Err (ECancelled l).
+Proof. intros rx rxo t fl cfg supplied regexes find. exact (lazy_cancel_at_k t fl cfg supplied regexes find (stdlib_call rxo t) (stdlib_call_errors_ok rxo t)). Qed.
+Theorem strict_never_cancel_neutral_stdlib : forall {rx : Type} rxo t fl cfg supplied (regexes : list rx) find fuel ms g0 s p k,
+  run_strict t fl cfg supplied None regexes find (stdlib_call rxo t) fuel ms g0 = Ok (s, p) -> (p_count p < k)%N ->
+  run_strict t fl cfg supplied (Some k) regexes find (stdlib_call rxo t) fuel ms g0 = Ok (s, with_budget p (Some k)).
+Proof. intros rx rxo t fl cfg supplied regexes find. exact (strict_never_cancel_neutral t fl cfg supplied regexes find (stdlib_call rxo t) (stdlib_call_errors_ok rxo t)). Qed.
+Theorem lazy_never_cancel_neutral_stdlib : forall {rx : Type} rxo t fl cfg supplied (regexes : list rx) find fuel ms g0 s p k,
+  run_lazy t fl cfg supplied None regexes find (stdlib_call rxo t) fuel ms g0 = Ok (s, p) -> (p_count p < k)%N ->
+  run_lazy t fl cfg supplied (Some k) regexes find (stdlib_call rxo t) fuel ms g0 = Ok (s, with_budget p (Some k)).
+Proof. intros rx rxo t fl cfg supplied regexes find. exact (lazy_never_cancel_neutral t fl cfg supplied regexes find (stdlib_call rxo t) (stdlib_call_errors_ok rxo t)). Qed.
+Theorem strict_cancel_or_same_error_stdlib : forall {rx : Type} rxo t fl cfg supplied (regexes : list rx) find fuel ms g0 e k,
+  (0 < k)%N -> run_strict t fl cfg supplied None regexes find (stdlib_call rxo t) fuel ms g0 = Err e ->
+  run_strict t fl cfg supplied (Some k) regexes find (stdlib_call rxo t) fuel ms g0 = Err e \/
+  exists l, run_strict t fl cfg supplied (Some k) regexes find (stdlib_call rxo t) fuel ms g0 = Err (ECancelled l).
+Proof. intros rx rxo t fl cfg supplied regexes find. exact (strict_cancel_or_same_error t fl cfg supplied regexes find (stdlib_call rxo t) (stdlib_call_errors_ok rxo t)). Qed.
+Theorem lazy_cancel_or_same_error_stdlib : forall {rx : Type} rxo t fl cfg supplied (regexes : list rx) find fuel ms g0 e k,
+  (0 < k)%N -> run_lazy t fl cfg supplied None regexes find (stdlib_call rxo t) fuel ms g0 = Err e ->
+  run_lazy t fl cfg supplied (Some k) regexes find (stdlib_call rxo t) fuel ms g0 = Err e \/
+  exists l, run_lazy t fl cfg supplied (Some k) regexes find (stdlib_call rxo t) fuel ms g0 = Err (ECancelled l).
+Proof. intros rx rxo t fl cfg supplied regexes find. exact (lazy_cancel_or_same_error t fl cfg supplied regexes find (stdlib_call rxo t) (stdlib_call_errors_ok rxo t)). Qed.
+Theorem strict_cancel_bare_stdlib : forall {rx : Type} rxo t fl cfg supplied (regexes : list rx) find budget fuel ms g0 e,
+  run_strict t fl cfg supplied budget regexes find (stdlib_call rxo t) fuel ms g0 = Err e ->
+  (exists l, e = ECancelled l) \/ (forall l, root_cause e <> ECancelled l).
+Proof. intros rx rxo t fl cfg supplied regexes find. exact (strict_cancel_bare t fl cfg supplied regexes find (stdlib_call rxo t) (stdlib_call_errors_ok rxo t)). Qed.
+Theorem lazy_cancel_bare_stdlib : forall {rx : Type} rxo t fl cfg supplied (regexes : list rx) find budget fuel ms g0 e,
+  run_lazy t fl cfg supplied budget regexes find (stdlib_call rxo t) fuel ms g0 = Err e ->
+  (exists l, e = ECancelled l) \/ (forall l, root_cause e <> ECancelled l).
+Proof. intros rx rxo t fl cfg supplied regexes find. exact (lazy_cancel_bare t fl cfg supplied regexes find (stdlib_call rxo t) (stdlib_call_errors_ok rxo t)). Qed.
+Theorem strict_cancel_stops_stdlib : forall {rx : Type} rxo t fl cfg supplied (regexes : list rx) find fuel ms g0 s p k,
+  (0 < k)%N -> run_strict t fl cfg supplied (Some k) regexes find (stdlib_call rxo t) fuel ms g0 = Ok (s, p) -> (p_count p < k)%N.
+Proof. intros rx rxo t fl cfg supplied regexes find. exact (strict_cancel_stops t fl cfg supplied regexes find (stdlib_call rxo t) (stdlib_call_errors_ok rxo t)). Qed.
+Theorem lazy_cancel_stops_stdlib : forall {rx : Type} rxo t fl cfg supplied (regexes : list rx) find fuel ms g0 s p k,
+  (0 < k)%N -> run_lazy t fl cfg supplied (Some k) regexes find (stdlib_call rxo t) fuel ms g0 = Ok (s, p) -> (p_count p < k)%N.
+Proof. intros rx rxo t fl cfg supplied regexes find. exact (lazy_cancel_stops t fl cfg supplied regexes find (stdlib_call rxo t) (stdlib_call_errors_ok rxo t)). Qed.
+
+(* ---- non-vacuity: a concrete program with a `for` loop, a stdlib call and a `scan`, run with the standard library
+       (module) @m {
+         node a
+         for v in [1, 2] {
+           node d
+           attr (d) i = (plus v 1)
+         }
+         scan "ab" {
+           "a" { attr (a) t = $0 }
+           "b" { print $0 }
+         }
+       }
+   on one match (full-match node 0), model regexes of Model/Regex.v.  The uncancelled strict run makes 14 polls and the
+   lazy run 41; both yield the same three-node graph.  Cancelled at k = 1 (the first poll), at a middle k (inside the
+   `for` body, inside the scan loop, in the lazy evaluation phase) and at k = number of polls (the last poll), the run
+   returns exactly the cancellation with the label of the k-th poll; at k = number of polls + 1 it succeeds with all
+   polls made.  The last two conjuncts are strict_cancel_at_k_stdlib / lazy_cancel_at_k_stdlib applied to the run: every
+   k in range. *)
+Definition c11_tree : tree := {| t_src := []; t_nodes := [] |}.
+Definition c11_file : file :=
+  {| f_globals := []; f_inherited := []; f_shorthands := [];
+     f_stanzas := [{|
+       st_stmts := [
+         SNode (VarU [97] (1, 7)) [97] (1, 2);
+         SFor [118] (2, 6) (EList [EInt 1; EInt 2])
+           [SNode (VarU [100] (3, 9)) [100] (3, 4);
+            SAttrNode (EUnscoped [100] (4, 10)) [Attr [105] (ECall Lit.plus [EUnscoped [118] (4, 22); EInt 1])] (4, 4)] (2, 2);
+         SScan (EStr [97;98])
+           [(0%N, [SAttrNode (EUnscoped [97] (7, 18)) [Attr [116] (ERegexCap 0)] (7, 12)], (7, 6));
+            (1%N, [SPrint [ERegexCap 0] (8, 12)], (8, 6))] (6, 2) ];
+       st_full_stanza_idx := 0; st_full_file_idx := 0; st_start := (0, 0) |}] |}.
+Definition c11_regexes : list regex := [RChr 97; RChr 98].
+Definition c11_oracle : regex_oracle := fun _ _ _ => None.          (* `replace` is not called *)
+Local Notation c11_strict budget :=
+  (run_strict c11_tree c11_file config0 [[]] budget c11_regexes rx_captures (stdlib_call c11_oracle c11_tree) 50 [[[(0%N, [0%N])]]] []).
+Local Notation c11_lazy budget :=
+  (run_lazy c11_tree c11_file config0 [[]] budget c11_regexes rx_captures (stdlib_call c11_oracle c11_tree) 50 [(0%N, [(0%N, [0%N])])] []).
+Definition c11_graph : graph :=
+  [ {| g_attrs := [([116], VStr [97])]; g_edges := [] |};
+    {| g_attrs := [([105], VInt 2)]; g_edges := [] |};
+    {| g_attrs := [([105], VInt 3)]; g_edges := [] |} ].
+
+Example c11_nonvacuous :
+  (exists s p, c11_strict None = Ok (s, p) /\ p_count p = 14%N /\ s_graph s = c11_graph /\
+               rev (p_trace p) = [L_exec_stmt; L_exec_stmt; L_exec_stmt; L_exec_stmt; L_exec_attr; L_exec_stmt; L_exec_stmt; L_exec_attr;
+                                  L_exec_stmt; L_scan; L_exec_stmt; L_exec_attr; L_scan; L_exec_stmt]) /\
+  (exists s p, c11_lazy None = Ok (s, p) /\ p_count p = 41%N /\ l_graph s = c11_graph) /\
+  c11_strict (Some 1%N) = Err (ECancelled L_exec_stmt) /\
+  c11_strict (Some 5%N) = Err (ECancelled L_exec_attr) /\
+  c11_strict (Some 10%N) = Err (ECancelled L_scan) /\
+  c11_strict (Some 14%N) = Err (ECancelled L_exec_stmt) /\
+  (exists s p, c11_strict (Some 15%N) = Ok (s, p) /\ p_count p = 14%N /\ s_graph s = c11_graph) /\
+  c11_lazy (Some 1%N) = Err (ECancelled L_matches) /\
+  c11_lazy (Some 9%N) = Err (ECancelled L_exec_attr) /\
+  c11_lazy (Some 15%N) = Err (ECancelled L_scan) /\
+  c11_lazy (Some 22%N) = Err (ECancelled L_eval_stmt) /\
+  c11_lazy (Some 41%N) = Err (ECancelled L_eval_value) /\
+  (exists s p, c11_lazy (Some 42%N) = Ok (s, p) /\ p_count p = 41%N /\ l_graph s = c11_graph) /\
+  (forall k, (1 <= k <= 14)%N -> exists l, c11_strict (Some k) = Err (ECancelled l)) /\
+  (forall k, (1 <= k <= 41)%N -> exists l, c11_lazy (Some k) = Err (ECancelled l)).
+Proof.
+  assert (Hs : exists s p, c11_strict None = Ok (s, p) /\ p_count p = 14%N) by (eexists; eexists; split; vm_compute; reflexivity).
+  assert (Hl : exists s p, c11_lazy None = Ok (s, p) /\ p_count p = 41%N) by (eexists; eexists; split; vm_compute; reflexivity).
+  split; [eexists; eexists; split; [vm_compute; reflexivity|]; split; [vm_compute; reflexivity|]; split; vm_compute; reflexivity|].
+  split; [eexists; eexists; split; [vm_compute; reflexivity|]; split; vm_compute; reflexivity|].
+  do 4 (split; [vm_compute; reflexivity|]).
+  split; [eexists; eexists; split; [vm_compute; reflexivity|]; split; vm_compute; reflexivity|].
+  do 5 (split; [vm_compute; reflexivity|]).
+  split; [eexists; eexists; split; [vm_compute; reflexivity|]; split; vm_compute; reflexivity|].
+  split.
+  - destruct Hs as (s & p & E & Hp). intros k Hk. rewrite <- Hp in Hk.
+    exact (strict_cancel_at_k_stdlib c11_oracle c11_tree c11_file config0 [[]] c11_regexes rx_captures 50%nat [[[(0%N, [0%N])]]] [] s p k E Hk).
+  - destruct Hl as (s & p & E & Hp). intros k Hk. rewrite <- Hp in Hk.
+    exact (lazy_cancel_at_k_stdlib c11_oracle c11_tree c11_file config0 [[]] c11_regexes rx_captures 50%nat [(0%N, [(0%N, [0%N])])] [] s p k E Hk).
+Qed.
